@@ -229,6 +229,7 @@ func runC03(c *Ctx) {
 	c03Digest(c, g)
 	c03NoDigestOrder(c)
 	c03Delta(c, g)
+	c03EveryDatagramHandled(c)
 	// --- R3: gossipRound ---
 	c03Round(c)
 	// --- R5 ---
@@ -443,6 +444,24 @@ func c03Round(c *Ctx) {
 			c.fail("C03.R3", key, fn.Pos(), "the round never consults "+src+"()")
 			continue
 		}
+		// the list is consulted in every round: only a failed exchange (an error return) may end the round earlier.
+		// Unreachable nodes that are probed only when nobody is live never meet again once two halves of a
+		// cluster suspect each other (each half keeps its own live peers).
+		end := everyPathEntry(fn, func(in ssa.Instruction) bool {
+			if in == ssa.Instruction(list) {
+				return true
+			}
+			if r, ok := in.(*ssa.Return); ok {
+				rv := returnValues(r)
+				return len(rv) > 0 && !isNilConst(rv[len(rv)-1])
+			}
+			return false
+		}, nil, true)
+		why := ""
+		if end != nil {
+			why = "a path reaches " + p.pos(end.instr.Pos()) + " (" + end.why + ") without consulting " + src + "(): the round skips these nodes depending on the other list"
+		}
+		c.check(end == nil, "C03.R3", fnName(fn)+"/always-consults-"+src, list.Pos(), src+"() is consulted in every round that did not already fail", why)
 		bad, call := exchangeWith(fn, list, func(v ssa.Value) bool { return derivesFromCall(v, list, 0) }, 0)
 		pos := list.Pos()
 		if call != nil {
@@ -1180,6 +1199,61 @@ func windowOf(v ssa.Value, windowsF *types.Var, nodeID ssa.Value) bool {
 // and the result is appended unless it has no entries. (The full-digest arm of
 // the join reply - deltaEntry(id, 0) for nodes the joiner did not name - only
 // speeds the joiner up and is not enforced.)
+// c03EveryDatagramHandled (C03.R10): the datagram loop hands every successfully
+// read packet to handlePacket. A size-, sender- or rate-based filter between the
+// read and the handler drops legal packets (a delta that fills the packet
+// exactly is legal and is re-sent identically until it is accepted), so the
+// receiver never advances.
+func c03EveryDatagramHandled(c *Ctx) {
+	p := c.P
+	fn := p.Func(gsPkg, "packetListener.Serve")
+	if fn == nil {
+		c.fail("C03.anchor", "packetListener.Serve", token.NoPos, "not found")
+		return
+	}
+	c.analysed(fnName(fn))
+	var read *ssa.Call
+	allInstrs(fn, func(i ssa.Instruction) {
+		if cl, ok := i.(*ssa.Call); ok && cl.Call.IsInvoke() && cl.Call.Method.Name() == "ReadFrom" {
+			read = cl
+		}
+	})
+	if read == nil {
+		c.fail("C03.R10", fnName(fn)+"/read", fn.Pos(), "no ReadFrom call found in the datagram loop")
+		return
+	}
+	isHandle := func(i ssa.Instruction) bool {
+		cl, ok := i.(*ssa.Call)
+		return ok && strings.HasSuffix(commonName(&cl.Call), "packetListener).handlePacket")
+	}
+	isRead := func(i ssa.Instruction) bool { return i == ssa.Instruction(read) }
+	paths, complete := enumPaths(read, isHandle, isRead, func(fp *fpath) bool { return len(fp.seen) > 0 }, 400)
+	bad := ""
+	if !complete {
+		bad = "too many paths"
+	}
+	handled := 0
+	for _, pa := range paths {
+		if len(pa.seen) > 0 {
+			handled++
+			continue
+		}
+		failed := anyFact(pa.facts, func(f Fact) bool {
+			return cmpFact(f, token.NEQ, func(v ssa.Value) bool {
+				ex, ok := v.(*ssa.Extract)
+				return ok && ex.Tuple == ssa.Value(read) && ex.Index == 2
+			}, isNilConst)
+		})
+		if !failed {
+			bad = "a path from the read to " + p.pos(pa.end.Pos()) + " (" + pa.endWhy + ") skips handlePacket although the read succeeded; facts " + factStrings(pa.facts)
+		}
+	}
+	if handled == 0 && bad == "" {
+		bad = "handlePacket is never called after the read"
+	}
+	c.check(bad == "", "C03.R10", fnName(fn)+"/every-read-handled", read.Pos(), "every successfully read datagram reaches handlePacket", "a received datagram is discarded before it is decoded: "+bad)
+}
+
 func c03Delta(c *Ctx, g *gossipAnchors) {
 	p := c.P
 	c.floor("C03.R7", 2)
